@@ -564,11 +564,11 @@ class HealpixLandscape(StokesLandscape):
         self.nside = nside
 
     def tree_flatten(self):  # type: ignore[no-untyped-def]
+        # the keys are the constructor's parameters: tree_unflatten rebuilds with cls(**aux_data)
         aux_data = {
-            'shape': self.shape,
-            'dtype': self.dtype,
-            'stokes': self.stokes,
             'nside': self.nside,
+            'stokes': self.stokes,
+            'dtype': self.dtype,
         }  # static values
         return (), aux_data
 
@@ -602,11 +602,11 @@ class FrequencyLandscape(HealpixLandscape):
         self.shape = (len(frequencies), 12 * nside**2)
 
     def tree_flatten(self):  # type: ignore[no-untyped-def]
+        # the keys are the constructor's parameters: tree_unflatten rebuilds with cls(**aux_data)
         aux_data = {
-            'shape': self.shape,
-            'dtype': self.dtype,
-            'stokes': self.stokes,
             'nside': self.nside,
             'frequencies': self.frequencies,
+            'stokes': self.stokes,
+            'dtype': self.dtype,
         }  # static values
         return (), aux_data
